@@ -6,10 +6,11 @@
    (buf_inv: true initially and preserved), all byte strings.
    Observations: flat = the emitted commands / ReceiveHttp events with adjacent data events of a stream merged;
    fin_rel = same connection object and same buffered bytes, or both connections closed by the proxy.
-   The full statement (no side condition on the cut) is false of the code in two places; both are findings:
-     C02_feed_app_refuted_pipe            bytes after a switch to passthrough are lstripped only if already buffered
-     C02_feed_app_refuted_early_response  a client connection whose response ended before its request re-runs the reader
-   cut_ok is exactly the complement of these two situations (ok_stop in Proofs/Http1Seg.v). *)
+   The full statement (no side condition on the cut) is false of the code in one place, a finding:
+     C02_feed_app_refuted_pipe   bytes after a switch to passthrough are lstripped only if already buffered
+   cut_ok is exactly the complement of that situation (ok_stop in Proofs/Http1Seg.v).  (A second place, a client
+   connection whose response ended before its request re-running the finished reader, was repaired in /repo 99d99512a:
+   Http1Client.mark_done now moves to wait; the model follows it and the side condition is gone.) *)
 From Coq Require Import List Bool NArith ZArith.
 From MV Require Import Base.Bytes Model.Http1Seg Proofs.Http1SegBuf Proofs.Http1Seg.
 Import ListNotations.
@@ -79,20 +80,6 @@ Proof.
   vm_compute. discriminate.
 Qed.
 Print Assumptions C02_feed_app_refuted_pipe.
-
-Theorem C02_feed_app_refuted_early_response :
-  exists af (c : conn N N) b a x o1 c1 b1 o2 c2 b2 o3 c3 b3, buf_inv b /\ a <> [] /\ x <> [] /\
-    handle_data N N w_sh w_ch (fun _ => false) af (fun _ => TrailerInvalid) true c b a = Finished c1 b1 o1 /\
-    handle_data N N w_sh w_ch (fun _ => false) af (fun _ => TrailerInvalid) true c1 b1 x = Finished c2 b2 o2 /\
-    handle_data N N w_sh w_ch (fun _ => false) af (fun _ => TrailerInvalid) true c b (a ++ x) = Finished c3 b3 o3 /\
-    flat N N o3 <> flat N N (o1 ++ o2).
-Proof.
-  exists (fun _ _ _ => NextMessage), (w_client false), empty_buf, HEAD_A, [x42].
-  do 9 eexists. split; [apply buf_inv_zero|]. split; [discriminate|]. split; [discriminate|].
-  split; [vm_compute; reflexivity|]. split; [vm_compute; reflexivity|]. split; [vm_compute; reflexivity|].
-  vm_compute. discriminate.
-Qed.
-Print Assumptions C02_feed_app_refuted_early_response.
 
 (* the unrepaired code (blank_loop = false): a blank line before a complete request stalls it when both arrive
    in one segment -- the defect repaired by fixes/C02-skip-blank-lines-before-head.diff *)
